@@ -8,3 +8,9 @@ let () = register_backend "scala" (fun cfg pd ->
             Model.sc_no_version_header = cfg_bool cfg "no_version_header" true;
             Model.sc_version = cfg_str cfg "version" } in
   Model.sc_generate uc c pd)
+let () = register_decls "scala" (fun cfg pd ->
+  let c = { Model.sc_package = cfg_str cfg "package"; Model.sc_module_name = cfg_str cfg "module_name";
+            Model.sc_type_mappings = cfg_map cfg "type_mappings";
+            Model.sc_no_version_header = cfg_bool cfg "no_version_header" true;
+            Model.sc_version = cfg_str cfg "version" } in
+  Model.sc_file_decls uc c pd)
